@@ -12,7 +12,7 @@ import (
 	"verif/internal/core"
 )
 
-func init() { Registry["C20"] = checkC20 }
+func init() { Registry["C20"] = withErrRules(checkC20, "", "internal/compare", "cmd/thriftbreak", "internal/git") }
 
 // condEdges returns the edges on which the boolean value whose symbolic
 // rendering satisfies match has truth value want.
@@ -376,6 +376,74 @@ func checkC20(c *core.Ctx, l *core.Ledger) {
 		why := "main does not turn an error from run into a failing exit"
 		if exitWhy != "" {
 			why = exitWhy
+		}
+		// the failing exit happens exactly for an error of run that is not the help request: the exit site lies
+		// under the non-nil edge of run's own result and, besides that, only under the false edge of
+		// errors.Is(<that error>, flag.ErrHelp); run receives the arguments after the program name
+		if runs := callsIn(f, "run"); len(runs) == 1 && exitWhy == "" {
+			runCall, _ := runs[0].(*ssa.Call)
+			var sites []ssa.Instruction
+			core.Instrs(f, func(in ssa.Instruction) {
+				if core.IsCallTo(in, "log", "Fatalf") || core.IsCallTo(in, "log", "Fatal") || core.IsCallTo(in, "log", "Fatalln") || core.IsCallTo(in, "os", "Exit") {
+					sites = append(sites, in)
+				}
+			})
+			if runCall != nil {
+				nonNil := core.GuardEdges(f, func(cm core.Cmp) bool {
+					k, isK := cm.Y.(*ssa.Const)
+					return cm.Op == token.NEQ && cm.X == ssa.Value(runCall) && isK && k.IsNil()
+				})
+				for _, s := range sites {
+					if len(nonNil) == 0 || !core.AllPathsThroughEdges(f, s.Block(), nonNil) {
+						exitWhy = "the failing exit at " + c.Rel(s.Pos()) + " is not confined to the case that run returned an error"
+					}
+				}
+				// every other branch on the way is the help test, taken on its false edge
+				for _, b := range f.Blocks {
+					ifi, isIf := b.Instrs[len(b.Instrs)-1].(*ssa.If)
+					if !isIf {
+						continue
+					}
+					if bo, isBo := ifi.Cond.(*ssa.BinOp); isBo && bo.X == ssa.Value(runCall) {
+						continue
+					}
+					okHelp := false
+					if call, isCall := ifi.Cond.(*ssa.Call); isCall && core.IsCallTo(call, "errors", "Is") && len(call.Call.Args) == 2 && call.Call.Args[0] == ssa.Value(runCall) {
+						if ld, isLd := call.Call.Args[1].(*ssa.UnOp); isLd {
+							if g, isG := ld.X.(*ssa.Global); isG && g.Pkg.Pkg.Path() == "flag" && g.Name() == "ErrHelp" {
+								okHelp = true
+								for _, s := range sites {
+									if b.Succs[0] == s.Block() || b.Succs[0].Dominates(s.Block()) {
+										exitWhy = "a help request ends in the failing exit at " + c.Rel(s.Pos())
+									}
+								}
+							}
+						}
+					}
+					if !okHelp {
+						exitWhy = "main decides about the exit under a condition other than `run failed` and `not a help request`: " + core.Sym(ifi.Cond) + " at " + c.Rel(ifi.Pos())
+					}
+				}
+				// arguments: os.Args[1:]
+				argOK := false
+				if len(runCall.Call.Args) == 1 {
+					if sl, isSl := runCall.Call.Args[0].(*ssa.Slice); isSl && sl.High == nil {
+						if lo, isK := core.ConstInt(sl.Low); isK && lo == 1 {
+							if ld, isLd := sl.X.(*ssa.UnOp); isLd {
+								if g, isG := ld.X.(*ssa.Global); isG && g.Pkg.Pkg.Path() == "os" && g.Name() == "Args" {
+									argOK = true
+								}
+							}
+						}
+					}
+				}
+				if !argOK && exitWhy == "" {
+					exitWhy = "run is not given os.Args[1:]"
+				}
+			}
+			if exitWhy != "" {
+				why = exitWhy
+			}
 		}
 		l.Check(fatal && exitWhy == "" && len(callsIn(f, "run")) == 1, "EXIT", "thriftbreak.main", c.Rel(f.Pos()), "an error from run ends the process through log.Fatalf or os.Exit with a constant non-zero status", why)
 	} else {
